@@ -151,4 +151,50 @@ theorem loadN_lt (mem : W → BitVec 8) : ∀ (n : Nat) (a : W), loadN mem a n <
     rw [e]
     omega
 
+/-! ## what `load` leaves in the destination register -/
+
+def needShift (fmt : Fmt) (b : Bool) : Bool := fmt == .h || fmt == .b || (b && fmt == .i)
+def shiftAmt (fmt : Fmt) (b : Bool) : Int := (if b then 64 else 32) - fmt.size * 8
+/-- register content after the code of `load` -/
+def loadVal (fmt : Fmt) (b : Bool) (raw : Nat) : W :=
+  if needShift fmt b then
+    aluSem .arsh b (aluSem .lsh b (BitVec.ofNat 64 raw) (simm (shiftAmt fmt b))) (simm (shiftAmt fmt b))
+  else BitVec.ofNat 64 raw
+
+theorem ofNat_widen (n w raw : Nat) (h : raw < 2 ^ n) (_hw : n ≤ w) :
+    BitVec.ofNat w raw = (BitVec.ofNat n raw).setWidth w := by
+  apply BitVec.eq_of_toNat_eq
+  simp [Nat.mod_eq_of_lt h]
+
+theorem shiftpair64 (n : Nat) (raw : Nat) (hn : 0 < n) (hw : n ≤ 64) (h : raw < 2 ^ n) :
+    ((BitVec.ofNat 64 raw) <<< (64 - n)).sshiftRight (64 - n) = (BitVec.ofNat n raw).signExtend 64 := by
+  rw [ofNat_widen n 64 raw h hw]; exact shl_sshr_signExtend n 64 _ hn hw
+
+theorem shiftpair32 (n : Nat) (raw : Nat) (hn : 0 < n) (hw : n ≤ 32) (h : raw < 2 ^ n) :
+    ((BitVec.ofNat 32 raw) <<< (32 - n)).sshiftRight (32 - n) = (BitVec.ofNat n raw).signExtend 32 := by
+  rw [ofNat_widen n 32 raw h hw]; exact shl_sshr_signExtend n 32 _ hn hw
+
+theorem trunc_ofNat64 (raw : Nat) : (BitVec.ofNat 64 raw).truncate 32 = BitVec.ofNat 32 raw := by
+  apply BitVec.eq_of_toNat_eq
+  simp
+
+theorem load_agree (fmt : Fmt) (b : Bool) (raw : Nat) (h : raw < 2 ^ (8 * fmt.size)) :
+    Agree b (loadVal fmt b raw) (extend fmt raw) := by
+  have s56 : (simm 56).toNat % 64 = 56 := by decide
+  have s48 : (simm 48).toNat % 64 = 48 := by decide
+  have s32 : (simm 32).toNat % 64 = 32 := by decide
+  have t24 : (simm 24).toNat % 32 = 24 := by decide
+  have t16 : (simm 16).toNat % 32 = 16 := by decide
+  cases fmt <;> cases b <;>
+    simp [loadVal, needShift, shiftAmt, extend, Fmt.signed, Fmt.size, Agree, aluSem, aluOp, s56, s48, s32, t24, t16] at h ⊢
+  · rw [setWidth_signExtend 8 32 64 _ (by omega) (by omega)]
+    exact shiftpair32 8 raw (by omega) (by omega) h
+  · exact shiftpair64 8 raw (by omega) (by omega) h
+  · rw [setWidth_signExtend 16 32 64 _ (by omega) (by omega)]
+    exact shiftpair32 16 raw (by omega) (by omega) h
+  · exact shiftpair64 16 raw (by omega) (by omega) h
+  · rw [setWidth_signExtend 32 32 64 _ (by omega) (by omega)]
+    simp
+  · exact shiftpair64 32 raw (by omega) (by omega) h
+
 end Ebv.Gen
